@@ -70,6 +70,10 @@ chk("C16", "model_checking",
     "explicit-state BFS over API operation histories on real Session/RequestBuilder objects with a reference model; state key = reference values + Arc sharing partition", "E3",
     "All histories up to the depth bound over {new session, clone, each setter with two values, header/header_append with colliding names, create request, request setters, drop}; in every state each live object's settings snapshot (hook H4) equals the value-semantics reference, the sharing partition is consistent, and every live request is prepared and sent through a scripted world that makes each setting wire-visible.",
     "Trusted: std Arc::make_mut; no unsafe outside cfg(windows) (scanned and reported); thread interleavings at operation granularity are the explored sequential histories, finer ones would be exploring std's Arc (loom has no make_mut, shuttle's Arc is std's) - a free-running thread run is kept as smoke test only.")
+chk("C17", "model_checking",
+    "stateless exploration of the real racing threads under a controlled scheduler (gates, hook H2) with addresses injected through the resolver hook (H3): full DFS over arrival schedules; plus free-running timing with real unresponsive addresses", "E4",
+    "Part A: for every address list (0..2/3 per family, all resolver orders, all accept/refuse assignments, deadline none/long/expired) EVERY arrival schedule of the attempts' results relative to the race windows and the final drain is executed on the real code against loopback listeners and reserved closed ports; oracle: success iff an accepting address reported, socket belongs to the first successful attempt received, honest error kind otherwise, attempts started v6/v4 alternating in resolver order, no attempt thread lingers. Part B: k unresponsive addresses (backlog-0 listeners) delay success by about k race intervals, far below the connect timeout.",
+    "Trusted: the harness's reading of when the main thread waits (running for 12 ms with every other thread parked); decisions taken early are equivalent to decisions at the start of the wait. Race interval (200 ms) and connect timing are real time.")
 chk("C18", "exploration",
     "exhaustive enumeration of charset labels x Content-Type forms x defaults x entry points, and of all byte strings up to a length bound x charsets x every segmentation x reader buffer sizes, against encoding_rs whole-buffer decoding", "E2",
     "Part A: every WHATWG label (228, in several spellings) x Content-Type forms x default-charset settings x entry points. Part B: all byte strings of length <= 4/5 over a 13-byte alphabet of lead/trail/escape bytes x 12 charsets x EVERY segmentation x caller buffer {1,2,3,8192,read_to_string}, plus an 8 KiB-boundary regime; output must equal the one-shot reference decode and never be an error.",
@@ -110,7 +114,7 @@ m = {
     "engines": [
         {"name": "E1", "path": "/verif/harness/src/e1.rs", "serves_properties": ["C01", "C02", "C19"], "kind_free_text": "explicit-state search over (scripted transport x real Response), states re-reached by replay, keyed by Debug of the reader stack"},
         {"name": "E2", "path": "/verif/harness/src/", "serves_properties": ["C03", "C04", "C05", "C06", "C07", "C08", "C11", "C12", "C15", "C18"], "kind_free_text": "bounded exhaustive input/configuration enumerators over the real code through the scripted transport (C05 in worker subprocesses)"},
-        {"name": "E4", "path": "/verif/harness/src/gates.rs", "serves_properties": ["C13"], "kind_free_text": "gate scheduler: library threads park at schedule points (hook H2) until the explorer releases them; DFS over move sequences with deviation bounding; every violating schedule replayed before it is reported"},
+        {"name": "E4", "path": "/verif/harness/src/gates.rs", "serves_properties": ["C13", "C17"], "kind_free_text": "gate scheduler: library threads park at schedule points (hook H2) until the explorer releases them; DFS over move sequences with deviation bounding; every violating schedule replayed before it is reported"},
         {"name": "E5", "path": "/verif/harness/src/tlslab.rs", "serves_properties": ["C08", "C12", "C14"], "kind_free_text": "local TLS lab: real loopback listeners (TLS origin, http/https proxy terminating the inner TLS), committed test PKI, second build against rustls"},
         {"name": "E3", "path": "/verif/harness/src/redir.rs", "serves_properties": ["C09", "C10", "C16"], "kind_free_text": "BFS over scripted redirect worlds with a reference model"},
     ],
